@@ -19,7 +19,7 @@ CHECK_FN = "check_case"
 INPUT_TYPE = "(bool * list N * list N)"
 TRUSTED_BASE = [
     "translators/c18_src.py (strict token-pattern reader of speedups.c / _websocket_mask_python; fails closed)",
-    "gcc building tornado/speedups.c from the working tree; C undefined behaviour (unaligned/aliasing word access) is outside the model, not exercised: the `s#` argument parser accepts only bytes objects, so the Python API cannot present differently aligned buffers",
+    "gcc building tornado/speedups.c from the working tree; C undefined behaviour (unaligned/aliasing word access) is outside the model; payloads at every address residue mod 8 are presented through ctypes views (the `s#` parser rejects memoryview but accepts them) and compared with the same model, which is alignment-independent",
     "machine words are modelled as N assembled from bytes (both endiannesses proved); this host is little-endian",
 ]
 ASSUMPTIONS = ["payload and mask elements are bytes (< 256)"]
@@ -63,6 +63,16 @@ def run_impl(case):
     if isc:
         f = native()
         arg = data
+        if off and data:
+            # a ctypes view at a chosen offset of a (malloc-aligned) bytearray: the only way
+            # the `s#` parser lets Python present a payload that is not 8-byte aligned
+            import ctypes
+            raw = bytearray(len(data) + 8)
+            base = ctypes.addressof(ctypes.c_char.from_buffer(raw))
+            shift = (off - base) % 8          # address of the payload = off (mod 8)
+            raw[shift:shift + len(data)] = data
+            arg = (ctypes.c_char * len(data)).from_buffer(raw, shift)
+            assert ctypes.addressof(arg) % 8 == off % 8
     else:
         from tornado.util import _websocket_mask_python as f
         arg = data
@@ -95,7 +105,7 @@ def gen_cases(rng, tier):
     out = []
     L = 72 if tier == "quick" else 300
     for n in range(L + 1):
-        for off in ((0, 0) if tier == "quick" else (0, 0, 0)):
+        for off in ((0, n % 8 or 1, (n * 3 + 5) % 8) if tier == "quick" else range(8)):
             mask = bytes(rng.randrange(256) for _ in range(4))
             data = bytes(rng.randrange(256) for _ in range(n))
             out.append(mk(True, mask, data, off))
@@ -103,14 +113,14 @@ def gen_cases(rng, tier):
     for _ in range(30 if tier == "quick" else 400):
         n = rng.choice([rng.randrange(73, 600), rng.randrange(600, 4097)])
         mask = rng.choice([bytes(rng.randrange(256) for _ in range(4)), b"\xff\x00\xff\x00", b"\x00\x00\x00\x01", b"\x80\x00\x00\x00"])
-        out.append(mk(rng.random() < 0.8, mask, bytes(rng.randrange(256) for _ in range(n)), 0))
+        out.append(mk(rng.random() < 0.8, mask, bytes(rng.randrange(256) for _ in range(n)), rng.randrange(8)))
     for ml in (0, 1, 2, 3, 5, 8):
         for isc in (True, False):
             out.append(mk(isc, bytes(rng.randrange(256) for _ in range(ml)), bytes(rng.randrange(256) for _ in range(rng.randrange(12)))))
     if tier == "thorough":   # the full alignment sweep (checked against the reference by py_check only)
         for n in range(301, 4097, 1):
             mask = bytes(rng.randrange(256) for _ in range(4))
-            out.append(mk(True, mask, bytes(rng.randrange(256) for _ in range(n)), 0))
+            out.append(mk(True, mask, bytes(rng.randrange(256) for _ in range(n)), n % 8))
     return out
 
 
@@ -130,6 +140,8 @@ def classify(case, o):
     yield "len=" + ("0" if n == 0 else "1-3" if n < 4 else "4-7" if n < 8 else "8-71" if n < 72 else "72+")
     yield "tail=%d" % (n % 4)
     yield "masklen=%d" % len(case["mask"])
+    if case["c"]:
+        yield "addr%%8=%d" % (case.get("off", 0) % 8)
 
 
 def signature(case, o):
